@@ -35,6 +35,7 @@ pub struct Rep {
     pub sample_cap: usize,
     case_ctr: u64,
     journal: Option<String>,
+    sample_calls: u64,
 }
 
 pub fn esc(s: &str) -> String {
@@ -58,9 +59,10 @@ impl Rep {
             samples: Vec::new(),
             distinct: HashSet::new(),
             notes: Vec::new(),
-            sample_cap: 8,
+            sample_cap: 10,
             case_ctr: 0,
             journal: std::env::var("PVH_JOURNAL").ok(),
+            sample_calls: 0,
         }
     }
 
@@ -126,8 +128,15 @@ impl Rep {
         self.sig_counts.values().sum()
     }
 
+    /// Keeps the 1st, 3rd, 9th, 27th ... candidate so that samples are spread over the run.
     pub fn sample(&mut self, s: impl FnOnce() -> String) {
-        if self.samples.len() < self.sample_cap {
+        self.sample_calls += 1;
+        let n = self.sample_calls;
+        let mut p = 1u64;
+        while p < n {
+            p *= 3;
+        }
+        if p == n && self.samples.len() < self.sample_cap {
             let v = s();
             self.samples.push(v);
         }
